@@ -3,7 +3,13 @@
   functions of XgiModel/C20/Draw.lean that the driver (XgiModel/C20/Drive.lean) runs.
 
   What is proved, for every network, every position function and every `max_order`:
-  * `markers_spec`      one marker per node, at its position, in node order;
+  * `draw_nodes_spec`   one marker per node, at its position, in node order, carrying the per-ID dict's value at
+                        that node's ID;
+  * `per_id_spec`, `per_id_order_irrelevant`, `per_id_in_order`: a per-ID style dict gives element k the value
+                        stored under the k-th element's ID, whatever the order of the dict's entries; for a dict
+                        listed in element order this is `list(d.values())` (what the unrepaired code applies);
+  * `segment_styles_spec`, `polygon_styles_spec`: every line / polygon carries the value of its own edge ID (the
+                        polygons through the `[ids_sorted]` re-indexing);
   * `segments_spec`     a line for an edge iff it has two members, in edge order, joining its members' positions;
   * `polygons_spec`     for every argsort oracle: one polygon per edge with 3 ≤ |e| ≤ max_order + 1, drawn by
                         non-increasing size, vertex multiset = the members' positions (`ccw_sort_perm`);
@@ -13,25 +19,145 @@
     `draw_sc_spec`: a simplicial complex is drawn as `draw_hyperedges` of the hypergraph made of its maximal
     simplices (of order ≤ max_order) and their node pairs without repeated sets: two nodes are joined by a line
     iff they lie together in a simplex, the polygons are exactly the maximal simplices with ≥ 3 nodes, each once;
-  * `barycenter_spec`, `edge_positions_spec`: |e| · barycenter = sum of the members' positions, keyed by edge ID;
-  * `layout_keys_spec`  every layout family returns exactly the node set (bipartite: and the edge IDs);
+  * `barycenter_spec`, `edge_positions_spec`: |e| · barycenter = sum of the members' positions; one entry per edge,
+                        keyed by its ID, in edge order;
+  * `layout_keys_spec`  for duplicate-free ID lists the key construction of every layout family (the networkx graph
+                        it builds, the dict it zips, the index maps it inverts) yields exactly the node view, in
+                        order (bipartite: and the edge view);
   * `phantom_fresh`     phantom labels `max int label + 1 + k` are fresh, distinct, one per edge with ≥ 2 members.
-  Finite coordinates of the numeric layouts, matplotlib's rendering and the style-argument handling are runtime
-  behaviour exhibited by the correspondence check only.
+  Finite coordinates of the numeric layouts, matplotlib's rendering (incl. how a style value becomes a size, width
+  or colour) and list / array / stat-valued style arguments are runtime behaviour exhibited by the correspondence
+  check only.  Definitional restatements (`markers_eq`, `edgePositions_eq`, `segments_edges`) live in
+  C20/LemmasStyle.lean as model sanity lemmas and are not counted here.
 -/
 import XgiModel.C20.Lemmas
 import XgiModel.C20.LemmasSC
+import XgiModel.C20.LemmasStyle
 
 namespace Xgi.C20
 open Xgi
 
-/-- one marker per node, at its position, in node order -/
-theorem markers_spec (h : Net) (pos : Pos) :
+/-- a per-ID dict gives the k-th plotted element the value stored under that element's ID; the call is defined
+    iff every plotted element has an entry -/
+theorem per_id_spec (d : SDict) (ids : List PyId) :
+    (∀ vs, perId d ids = some vs → List.Forall₂ (fun i v => d.get? i = some v) ids vs) ∧
+    ((∃ vs, perId d ids = some vs) ↔ ∀ i ∈ ids, i ∈ d.map (·.1)) := by
+  refine ⟨?_, ?_⟩
+  · intro vs h
+    unfold perId at h
+    simp only [] at h
+    split at h
+    · cases h
+      exact forall2_filterMap_of_length _ _ ‹_›
+    · cases h
+  · constructor
+    · rintro ⟨vs, h⟩
+      unfold perId at h
+      simp only [] at h
+      split at h
+      · rename_i hl
+        have hf := forall2_filterMap_of_length _ _ hl
+        intro i hi
+        obtain ⟨k, hk, rfl⟩ := List.getElem_of_mem hi
+        rcases forall2_getElem? hf k with ⟨h1, _⟩ | ⟨a, b, h1, _, h3⟩
+        · simp at h1; omega
+        · rw [List.getElem?_eq_getElem hk] at h1
+          cases h1
+          by_contra hc
+          rw [← get?_eq_none_iff] at hc
+          rw [hc] at h3; cases h3
+      · cases h
+    · intro hall
+      have hl : (ids.filterMap d.get?).length = ids.length := by
+        induction ids with
+        | nil => rfl
+        | cons a t ih =>
+          cases ha : d.get? a with
+          | none =>
+            exfalso
+            rw [get?_eq_none_iff] at ha
+            exact ha (hall a (by simp))
+          | some b =>
+            rw [List.filterMap_cons_some ha]
+            simp [ih (fun i hi => hall i (List.mem_cons_of_mem _ hi))]
+      exact ⟨ids.filterMap d.get?, by unfold perId; simp [hl]⟩
+
+/-- the order in which a dict lists its entries is irrelevant -/
+theorem per_id_order_irrelevant (d d' : SDict) (ids : List PyId) (hd : (d.map (·.1)).Nodup) (hp : d.Perm d') :
+    perId d ids = perId d' ids := by
+  have : d.get? = d'.get? := funext (get?_perm hd hp)
+  unfold perId
+  rw [this]
+
+/-- for a dict that lists exactly the plotted elements in plotting order, the value list is `list(d.values())`:
+    on such dicts the repaired lookup and the positional reading of the unrepaired code coincide -/
+theorem per_id_in_order (d : SDict) (hd : (d.map (·.1)).Nodup) :
+    perId d (d.map (·.1)) = some (positional d) := by
+  have key : (d.map (·.1)).filterMap d.get? = d.map (·.2) := by
+    induction d with
+    | nil => rfl
+    | cons p t ih =>
+      have hd' : (t.map (·.1)).Nodup := (List.nodup_cons.mp (by simpa using hd)).2
+      have hp' : p.1 ∉ t.map (·.1) := (List.nodup_cons.mp (by simpa using hd)).1
+      simp only [List.map_cons]
+      rw [List.filterMap_cons_some (b := p.2) (by rw [get?_cons]; simp)]
+      congr 1
+      rw [← ih hd']
+      apply List.filterMap_congr
+      intro i hi
+      rw [get?_cons]
+      have : p.1 ≠ i := by rintro rfl; exact hp' hi
+      simp [this]
+  unfold perId positional
+  simp [key]
+
+/-- `draw_nodes`: one marker per node, at its position, in node order; with a per-ID dict for node_size / node_fc /
+    node_lw the k-th marker carries the dict's value at the k-th node -/
+theorem draw_nodes_spec (h : Net) (pos : Pos) (d : SDict) :
     (markers h pos).length = h.nodes.length ∧
-    ∀ i (hi : i < h.nodes.length), (markers h pos)[i]? = some (pos h.nodes[i]) := by
-  refine ⟨by simp [markers], ?_⟩
-  intro i hi
-  simp [markers, List.getElem?_eq_getElem hi]
+    (∀ k (hk : k < h.nodes.length), (markers h pos)[k]? = some (pos h.nodes[k])) ∧
+    ∀ vs, markerStyles h d = some vs →
+      vs.length = h.nodes.length ∧ ∀ k (hk : k < h.nodes.length), vs[k]? = d.get? h.nodes[k] := by
+  refine ⟨(markers_eq h pos).1, (markers_eq h pos).2, ?_⟩
+  intro vs hv
+  have hf := (per_id_spec d h.nodes).1 vs hv
+  refine ⟨hf.length_eq.symm, ?_⟩
+  intro k hk
+  rcases forall2_getElem? hf k with ⟨h1, _⟩ | ⟨a, b, h1, h2, h3⟩
+  · simp at h1; omega
+  · rw [List.getElem?_eq_getElem hk] at h1
+    cases h1
+    rw [h2, h3]
+
+/-- with a per-ID dict for dyad_lw / dyad_color every line carries the dict's value at its own edge ID -/
+theorem segment_styles_spec (h : Net) (pos : Pos) (d : SDict) (vs : List SVal)
+    (hv : segmentStyles h d = some vs) :
+    List.Forall₂ (fun s v => d.get? s.e.1 = some v) (segments h pos) vs := by
+  have hf := (per_id_spec d _).1 vs hv
+  unfold segments
+  rw [List.forall₂_map_left_iff] at hf ⊢
+  exact hf
+
+/-- with a per-ID dict for edge_fc / edge_ec every polygon, in drawing order, carries the dict's value at its own
+    edge ID (the value array is built in edge order and re-indexed by the same permutation as the patches) -/
+theorem polygon_styles_spec (h : Net) (pos : Pos) (m : Int) (perm : List Nat) (d : SDict) (cs : List SVal)
+    (hc : polygonStyles h m perm d = some cs) :
+    List.Forall₂ (fun p v => d.get? p.e.1 = some v) (polygonsWith h pos m perm) cs := by
+  unfold polygonStyles at hc
+  cases hv : perId d ((polyEdges h m).map (·.1)) with
+  | none => rw [hv] at hc; cases hc
+  | some vs =>
+    rw [hv] at hc
+    simp only [Option.map_some] at hc
+    cases hc
+    have hf := (per_id_spec d _).1 vs hv
+    rw [List.forall₂_map_left_iff] at hf
+    unfold polygonsWith
+    apply forall2_filterMap_pair
+    intro i
+    rcases forall2_getElem? hf i with ⟨h1, h2⟩ | ⟨a, b, h1, h2, h3⟩
+    · left; simp [h1, h2]
+    · right; exact ⟨polyOf pos a, b, by simp [h1], h2, by simpa [polyOf] using h3⟩
 
 /-- a segment for e iff |e| = 2 (one per such edge, in edge order); its endpoints are its two members' positions -/
 theorem segments_spec (h : Net) (pos : Pos) :
@@ -136,19 +262,36 @@ theorem barycenter_spec (pos : Pos) (ms : List PyId) (hne : ms ≠ []) :
   · rw [← sumPts_fst]; field_simp
   · rw [← sumPts_snd]; field_simp
 
-/-- `edge_positions_from_barycenters`: one entry per edge, keyed by its ID, in edge order, holding the barycenter -/
+/-- `edge_positions_from_barycenters`: one entry per edge, keyed by its ID, in edge order; the entry of an edge with
+    members is a point c with |e| · c = Σ positions of its members -/
 theorem edge_positions_spec (h : Net) (pos : Pos) :
     (edgePositions h pos).map (·.1) = h.edgeIds ∧
-    ∀ i (hi : i < h.edges.length), (edgePositions h pos)[i]? = some (h.edges[i].1, barycenter pos h.edges[i].2) := by
-  refine ⟨by simp [edgePositions, Net.edgeIds], ?_⟩
-  intro i hi
-  simp [edgePositions, List.getElem?_eq_getElem hi]
+    ∀ i (hi : i < h.edges.length), h.edges[i].2 ≠ [] →
+      ∃ c, (edgePositions h pos)[i]? = some (h.edges[i].1, some c) ∧
+        (h.edges[i].2.length : Rat) * c.1 = ((h.edges[i].2.map pos).map (·.1)).sum ∧
+        (h.edges[i].2.length : Rat) * c.2 = ((h.edges[i].2.map pos).map (·.2)).sum := by
+  refine ⟨(edgePositions_eq h pos).1, ?_⟩
+  intro i hi hne
+  obtain ⟨c, hc, h1, h2⟩ := barycenter_spec pos h.edges[i].2 hne
+  exact ⟨c, by rw [(edgePositions_eq h pos).2 i hi, hc], h1, h2⟩
 
-/-- every layout family returns positions for exactly the nodes (the bipartite layout: and exactly the edges);
-    simplicial-complex inputs go through `from_max_simplices`, which keeps the node set -/
-theorem layout_keys_spec (f : Family) (c : Cls) (h : Net) :
+/-- for duplicate-free node and edge ID lists (what every network satisfies, `Net.WF`) the key construction of
+    every layout family — the empty graph of `_process_params` zipped with the random rows, the relabelled graph of
+    the adjacency matrix, the augmented projection restricted to `H.nodes`, the index maps of `to_bipartite_graph`
+    inverted over the spring layout of the bipartite graph, `zip(list(H.nodes), pos)` — returns positions for
+    exactly the nodes, in node order (the bipartite layout: and exactly the edges, in edge order); simplicial-complex
+    inputs go through `from_max_simplices`, which keeps the node set -/
+theorem layout_keys_spec (f : Family) (c : Cls) (h : Net) (hn : h.nodes.Nodup) (he : h.edgeIds.Nodup) :
     layoutKeys f c h = some (h.nodes, if f = .bipartite then some h.edgeIds else none) := by
   cases f
+  case random =>
+    simp only [layoutKeys, randomKeys, graphNodes, asHypergraph_nodes]
+    rw [dedup_of_nodup _ hn, zipKeys_self _ hn]
+    simp
+  case pairwise =>
+    simp only [layoutKeys, pairwiseKeys, graphNodes, asHypergraph_nodes]
+    rw [range_map_getD, dedup_of_nodup _ hn]
+    simp
   case barycenter =>
     simp only [layoutKeys]
     rw [restrictKeys_of_subset]
@@ -156,7 +299,34 @@ theorem layout_keys_spec (f : Family) (c : Cls) (h : Net) :
     · intro k hk
       unfold augmentedNodes
       simp [hk]
-  all_goals simp [layoutKeys, asHypergraph_nodes]
+  case bipartite =>
+    have hlen : h.edgeIds.length = h.edges.length := by simp [Net.edgeIds]
+    have h1 : (h.nodes.zip (List.range h.nodes.length)).map (·.1) = h.nodes := List.map_fst_zip (by simp)
+    have h2 : (h.edgeIds.zip (List.range' h.nodes.length h.edges.length)).map (·.1) = h.edgeIds :=
+      List.map_fst_zip (by simp [hlen])
+    have h3 : (h.nodes.zip (List.range h.nodes.length)).map (·.2) = List.range h.nodes.length :=
+      List.map_snd_zip (by simp)
+    have h4 : (h.edgeIds.zip (List.range' h.nodes.length h.edges.length)).map (·.2)
+        = List.range' h.nodes.length h.edges.length := List.map_snd_zip (by simp [hlen])
+    simp only [layoutKeys, bipartiteKeys, graphNodes, h1, h2, h3, h4]
+    rw [dedup_of_nodup _ hn, dedup_of_nodup _ he, dedup_of_nodup _ (nodup_range_append_range' _ _)]
+    have hall : ((h.nodes.zip (List.range h.nodes.length) ++ h.edgeIds.zip (List.range' h.nodes.length h.edges.length)).all
+        (fun p => decide (p.2 ∈ List.range h.nodes.length ++ List.range' h.nodes.length h.edges.length))) = true := by
+      rw [List.all_eq_true]
+      intro p hp
+      rcases List.mem_append.mp hp with hp | hp
+      · have : p.2 ∈ List.range h.nodes.length := by rw [← h3]; exact List.mem_map.mpr ⟨p, hp, rfl⟩
+        simp only [decide_eq_true_eq, List.mem_append]; exact Or.inl this
+      · have : p.2 ∈ List.range' h.nodes.length h.edges.length := by rw [← h4]; exact List.mem_map.mpr ⟨p, hp, rfl⟩
+        simp only [decide_eq_true_eq, List.mem_append]; exact Or.inr this
+    rw [hall]
+    simp
+  case circular =>
+    simp only [layoutKeys, circularKeys]
+    split
+    · simp [*]
+    · simp [*]
+    · rw [zipKeys_self _ hn]; simp
 
 /-- the k-th phantom label is `max int label + 1 + k` (`0 + k` without int labels); it is not a node label,
     phantom labels are pairwise different, one per edge with ≥ 2 members -/
@@ -260,13 +430,6 @@ theorem sc_plan_spec (h : Net) (pos : Pos) (mo : Option Int) (r : List Seg × Li
   · split at hr
     · cases hr
     · simpa using hr.symm
-/-- maximal simplices inherit duplicate-free member lists -/
-theorem maxSets_nodup (h : Net) (mo : Option Int) (hnd : ∀ p ∈ h.edges, p.2.Nodup) :
-    ∀ t ∈ maxSets h mo, t.Nodup := by
-  intro t ht
-  obtain ⟨p, hp, rfl, _⟩ := ((max_sets_spec h mo).1 t).mp ht
-  exact hnd p (((max_sets_spec h mo).2.2 p).mp hp).1
-
 /-- two different nodes are joined by a line iff they lie together in a simplex of order ≤ max_order
     (for a face-closed complex: iff {a, b} is one of its simplices) -/
 theorem sc_segments_spec (h : Net) (pos : Pos) (mo : Option Int) (r : List Seg × List Poly)
@@ -439,5 +602,22 @@ example : ((simplicesNet exSC none).edges.map (·.2)) =
     [[.int 1, .int 2, .int 3], [.int 1, .int 2], [.int 1, .int 3], [.int 2, .int 3], [.int 3, .int 4]] := by decide
 example : ∃ p ∈ (truncate (some 1) exSC).edges, 2 ≤ p.2.length := ⟨(.int 1, [.int 1, .int 2]), by decide, by decide⟩
 example : layoutKeys .bipartite .hg exNet = some (exNet.nodes, some [.int 0, .int 1, .int 2, .int 3]) := by decide
+example : exNet.nodes.Nodup ∧ exNet.edgeIds.Nodup ∧ exSC.nodes.Nodup ∧ exSC.edgeIds.Nodup := by decide
+example : layoutKeys .pairwise .sc exSC = some (exSC.nodes, none) := by decide
+example : layoutKeys .random .hg exNet = some (exNet.nodes, none) := by decide
+example : layoutKeys .circular .hg exNet = some (exNet.nodes, none) := by decide
+-- without the hypothesis of `layout_keys_spec` the keys are the distinct labels, not the list
+example : layoutKeys .circular .hg { nodes := [.int 1, .int 1, .int 2], edges := [] } = some ([.int 1, .int 2], none) := by decide
+/-- a per-node dict listed in another order than the node view -/
+def exDict : SDict := [(.int 3, .col "red"), (.str "a", .num 7), (.int 1, .col "blue"), (.int 2, .col "green")]
+example : markerStyles exNet exDict = some [.col "blue", .col "green", .col "red", .num 7] := by decide
+-- the positional reading of the unrepaired code gives node 1 the value stored under 3
+example : positional exDict = [.col "red", .num 7, .col "blue", .col "green"] := by decide
+example : perId exDict [.int 1, .int 9] = none := by decide
+/-- a per-edge dict over all edge IDs, listed in another order than the edge view -/
+def exEdgeDict : SDict := [(.int 3, .num 2), (.int 0, .num 5), (.int 1, .num 1), (.int 2, .num 9)]
+example : segmentStyles exNet exEdgeDict = some [.num 5] := by decide
+-- polygons are drawn [edge 3, edge 1] (larger first): values 2 and 1
+example : polygonStyles exNet 3 [0, 1] exEdgeDict = some [.num 2, .num 1] := by decide
 
 end Xgi.C20
